@@ -16,34 +16,76 @@ func startEdge(t tensor.Tensor) (edge *backwardEdge) {
 	}
 }
 
-func backward(edge *backwardEdge) (err error) {
-	gctx := gradContextOf(edge.target)
+func backward(start *backwardEdge) (err error) {
+	root := gradContextOf(start.target)
 
-	if !gctx.tracked {
+	if !root.tracked {
 		return nil
-	} else {
-		gctx.bpdirty = true
 	}
+
+	// consumers before their operands; every context appears once
+	order := topologicalOrder(root)
 
 	noteRule()
-	grad, err := edge.gradFn()
+	grad, err := start.gradFn()
 	if err != nil {
 		return
 	}
 
-	err = accumulateGrad(gctx, grad)
+	err = accumulateGrad(root, grad)
 	if err != nil {
 		return
 	}
 
-	for _, e := range gctx.backEdges {
-		err = backward(e)
-		if err != nil {
-			return
+	for _, gctx := range order {
+		for _, e := range gctx.backEdges {
+			target := gradContextOf(e.target)
+			if !target.tracked {
+				continue
+			}
+
+			noteRule()
+			grad, err = e.gradFn()
+			if err != nil {
+				return
+			}
+
+			err = accumulateGrad(target, grad)
+			if err != nil {
+				return
+			}
 		}
 	}
 
 	return nil
+}
+
+func topologicalOrder(root *GradContext) (order []*GradContext) {
+	visited := make(map[*GradContext]bool)
+
+	var visit func(*GradContext)
+	visit = func(gctx *GradContext) {
+		if !gctx.tracked || visited[gctx] {
+			return
+		}
+
+		visited[gctx] = true
+		gctx.bpdirty = true
+
+		for _, e := range gctx.backEdges {
+			visit(gradContextOf(e.target))
+		}
+
+		order = append(order, gctx)
+	}
+
+	visit(root)
+
+	for i, j := 0, len(order)-1; i < j; i, j = i+1, j-1 {
+		order[i], order[j] = order[j], order[i]
+	}
+
+	return order
 }
 
 func accumulateGrad(gctx *GradContext, grad tensor.Tensor) (err error) {
